@@ -327,7 +327,7 @@ void verif_enumerate(verif::Ctx &ctx)
                                 if (late != 0 && end != 1'000'000L && push != 0) continue;
                             }
                             const int weight = push + stop;
-                            const int bound = th ? (weight <= 1 ? 3 : 2) : (weight == 0 ? 3 : weight == 1 ? 2 : 1);
+                            const int bound = th ? (weight <= 1 ? 4 : weight == 2 ? 3 : 2) : (weight == 0 ? 3 : weight == 1 ? 2 : 1);
                             configs.push_back("tm=" + sm + (em.empty() ? "" : "|" + em) + ";push=" + std::to_string(push) + ";stop=" + std::to_string(stop) + ";end=" + std::to_string(end) + ";late=" + std::to_string(late) + ";bound=" + std::to_string(bound));
                         }
     // immediate cascades (the drain cut-off past end_time applies only while the run keeps re-scheduling itself every smallest step):
